@@ -282,7 +282,8 @@ MUTANTS = [
     ("c07_then_also_attaches_for_unknown", [(RCE, "            format_constraint_is_required = other_condition.conditions_fulfilled == ConditionFulfilledValue.FULFILLED", "            format_constraint_is_required = other_condition.conditions_fulfilled != ConditionFulfilledValue.UNFULFILLED")], ["C07"]),
     ("c07_bracket_stripping_greedy", [(EB, r"""_one_key_surrounded_by_brackets_pattern = re.compile(r"\((?P<body>\[\d+\])\)")""", r"""_one_key_surrounded_by_brackets_pattern = re.compile(r"\((?P<body>\[\d+\][^()]*)\)")""")], ["C07"]),
     # ---- C08 ---------------------------------------------------------------------------------------------------------
-    ("c08_lor_message_when_only_right_unfulfilled", [(EB, """        if self.format_constraint_fulfilled is False and other.format_constraint_fulfilled is False:
+    # since the repair of D13 the text of a fulfilled result is dropped at the end: this one only changes the wording of messages now
+    ("ok_c08_lor_message_when_only_right_unfulfilled", [(EB, """        if self.format_constraint_fulfilled is False and other.format_constraint_fulfilled is False:
             self._expression = f"'{self._expression}' oder '{other.error_message}'\"""", """        if self.format_constraint_fulfilled is False or other.format_constraint_fulfilled is False:
             self._expression = f"'{self._expression}' oder '{other.error_message}'\"""")], ["C08"]),
     ("c08_xor_both_fulfilled_without_message", [(EB, """        elif self.format_constraint_fulfilled is True and other.format_constraint_fulfilled is True:
